@@ -668,6 +668,8 @@ def _lean_bexpr(e):
         return f"(.model {lstr(e[1])} [" + ", ".join(f"({lstr(a)}, {_lean_bexpr(v)})" for a, v in e[2]) + "])"
     if k == "orElse":
         return f"(.orElse {_lean_bexpr(e[1])} {_lean_bexpr(e[2])})"
+    if k == "ite":
+        return f"(.ite {_lean_bcond(e[1])} {_lean_bexpr(e[2])} {_lean_bexpr(e[3])})"
     raise Bad(k)
 
 
@@ -699,7 +701,7 @@ class _BuilderTranslator:
             if not modname.startswith("chuk_mcp.protocol"):
                 continue
             for n in mod.tree.body:
-                if isinstance(n, ast.FunctionDef) and n.name.startswith("create_"):
+                if isinstance(n, ast.FunctionDef):
                     self.funcs[(modname, n.name)] = (mod, n, None)
                 if isinstance(n, ast.ClassDef):
                     for m in n.body:
@@ -707,6 +709,7 @@ class _BuilderTranslator:
                                 isinstance(d, ast.Name) and d.id == "classmethod" for d in m.decorator_list):
                             self.funcs[(modname, f"{n.name}.{m.name}")] = (mod, m, n.name)
         self.cache = {}
+        self.fresh = 0
 
     def find_function(self, mod, fn, name):
         """a helper called by bare name: same module, a module-level import, or an import inside the function"""
@@ -724,7 +727,7 @@ class _BuilderTranslator:
                 return (m, n)
         return None
 
-    def expr(self, mod, fn, owner, e, scope, subst):
+    def expr(self, mod, fn, owner, e, scope, subst, pre=None):
         if isinstance(e, ast.Constant):
             if e.value is None or isinstance(e.value, (bool, int, float, str)):
                 return ("const", e.value)
@@ -736,15 +739,19 @@ class _BuilderTranslator:
                 return ("param", e.id)
             raise _NoBuild(f"free name {e.id}")
         if isinstance(e, ast.List):
-            return ("list", [self.expr(mod, fn, owner, x, scope, subst) for x in e.elts])
+            return ("list", [self.expr(mod, fn, owner, x, scope, subst, pre) for x in e.elts])
         if isinstance(e, ast.Dict):
             kvs = []
             for k, v in zip(e.keys, e.values):
-                kvs.append((self.key(k, scope, subst), self.expr(mod, fn, owner, v, scope, subst)))
+                kvs.append((self.key(k, scope, subst), self.expr(mod, fn, owner, v, scope, subst, pre)))
             return ("dict", kvs)
         if isinstance(e, ast.BoolOp) and isinstance(e.op, ast.Or) and len(e.values) == 2:
-            return ("orElse", self.expr(mod, fn, owner, e.values[0], scope, subst),
-                    self.expr(mod, fn, owner, e.values[1], scope, subst))
+            return ("orElse", self.expr(mod, fn, owner, e.values[0], scope, subst, pre),
+                    self.expr(mod, fn, owner, e.values[1], scope, subst, pre))
+        if isinstance(e, ast.IfExp):
+            # both arms are evaluated by the translator, so neither may need statements of its own
+            return ("ite", self.cond(e.test, scope), self.expr(mod, fn, owner, e.body, scope, subst, None),
+                    self.expr(mod, fn, owner, e.orelse, scope, subst, None))
         if isinstance(e, ast.Call) and isinstance(e.func, ast.Name) and not e.args or (
                 isinstance(e, ast.Call) and isinstance(e.func, ast.Name)):
             name = e.func.id
@@ -757,23 +764,35 @@ class _BuilderTranslator:
             if ids and len(ids) == 1:
                 if e.args:
                     raise _NoBuild("positional constructor arguments")
-                return ("model", next(iter(ids)), [(kw.arg, self.expr(mod, fn, owner, kw.value, scope, subst)) for kw in e.keywords])
+                return ("model", next(iter(ids)), [(kw.arg, self.expr(mod, fn, owner, kw.value, scope, subst, pre)) for kw in e.keywords])
             target = self.find_function(mod, fn, name)
             if target is not None:
                 b = self.translate(*target)
-                if b["body"]:
-                    raise _NoBuild(f"call of {name}, which is not a plain expression")
                 actual = {}
                 for (pn, _d), a in zip(b["params"], e.args):
-                    actual[pn] = self.expr(mod, fn, owner, a, scope, subst)
+                    actual[pn] = self.expr(mod, fn, owner, a, scope, subst, pre)
                 for kw in e.keywords:
-                    actual[kw.arg] = self.expr(mod, fn, owner, kw.value, scope, subst)
+                    actual[kw.arg] = self.expr(mod, fn, owner, kw.value, scope, subst, pre)
                 for pn, d in b["params"]:
                     if pn not in actual:
                         if d is _REQUIRED:
                             raise _NoBuild(f"call of {name} without {pn}")
                         actual[pn] = ("const", d)
-                return _subst_expr(b["ret"], actual)
+                if not b["body"]:
+                    return _subst_expr(b["ret"], actual)
+                # the callee has statements: inline them under fresh names, arguments bound first
+                if pre is None:
+                    raise _NoBuild(f"call of {name} (which has statements) in a conditional position")
+                self.fresh += 1
+                pfx = f"{name}#{self.fresh}."
+                names = {pn for pn, _ in b["params"]} | {st[1] if st[0] == "assign" else st[2] for st in b["body"]}
+                ren = {n: pfx + n for n in names}
+                for pn, _ in b["params"]:
+                    pre.append(("assign", ren[pn], actual[pn]))
+                for st in b["body"]:
+                    pre.append(_rename_stmt(st, ren))
+                scope.update(ren.values())
+                return _rename_expr(b["ret"], ren)
             raise _NoBuild(f"call of {name}")
         raise _NoBuild(type(e).__name__)
 
@@ -795,16 +814,16 @@ class _BuilderTranslator:
                 return ("isNone", t.left.id)
         raise _NoBuild("condition")
 
-    def simple_stmt(self, mod, fn, owner, st, scope):
+    def simple_stmt(self, mod, fn, owner, st, scope, pre=None):
         """-> ("assign", x, e) | ("setKey", x, key, e)"""
         if isinstance(st, ast.AnnAssign) and isinstance(st.target, ast.Name) and st.value is not None:
-            return ("assign", st.target.id, self.expr(mod, fn, owner, st.value, scope, {}))
+            return ("assign", st.target.id, self.expr(mod, fn, owner, st.value, scope, {}, pre))
         if isinstance(st, ast.Assign) and len(st.targets) == 1:
             t = st.targets[0]
             if isinstance(t, ast.Name):
-                return ("assign", t.id, self.expr(mod, fn, owner, st.value, scope, {}))
+                return ("assign", t.id, self.expr(mod, fn, owner, st.value, scope, {}, pre))
             if isinstance(t, ast.Subscript) and isinstance(t.value, ast.Name) and t.value.id in scope:
-                return ("setKey", t.value.id, self.key(t.slice, scope, {}), self.expr(mod, fn, owner, st.value, scope, {}))
+                return ("setKey", t.value.id, self.key(t.slice, scope, {}), self.expr(mod, fn, owner, st.value, scope, {}, pre))
         raise _NoBuild(type(st).__name__)
 
     def translate(self, modname, qual):
@@ -840,7 +859,7 @@ class _BuilderTranslator:
             if ret is not None:
                 raise _NoBuild("code after return")
             if isinstance(st, ast.Return) and st.value is not None:
-                ret = self.expr(mod, fn, owner, st.value, scope, {})
+                ret = self.expr(mod, fn, owner, st.value, scope, {}, body)
                 continue
             if isinstance(st, ast.If) and not st.orelse and len(st.body) == 1:
                 c = self.cond(st.test, scope)
@@ -852,7 +871,7 @@ class _BuilderTranslator:
                 else:
                     body.append(("setKeyIf", c, s[1], s[2], s[3]))
                 continue
-            s = self.simple_stmt(mod, fn, owner, st, scope)
+            s = self.simple_stmt(mod, fn, owner, st, scope, body)
             if s[0] != "assign":
                 raise _NoBuild("unconditional item assignment")
             body.append(s)
@@ -869,6 +888,43 @@ class _BuilderTranslator:
 
 
 _REQUIRED = object()
+
+
+def _rename_key(k, ren):
+    return ("param", ren.get(k[1], k[1])) if k[0] == "param" else k
+
+
+def _rename_cond(c, ren):
+    return (c[0], ren.get(c[1], c[1]))
+
+
+def _rename_expr(e, ren):
+    k = e[0]
+    if k == "param":
+        return ("param", ren.get(e[1], e[1]))
+    if k == "const":
+        return e
+    if k == "list":
+        return ("list", [_rename_expr(x, ren) for x in e[1]])
+    if k == "dict":
+        return ("dict", [(_rename_key(kk, ren), _rename_expr(v, ren)) for kk, v in e[1]])
+    if k == "model":
+        return ("model", e[1], [(a, _rename_expr(v, ren)) for a, v in e[2]])
+    if k == "orElse":
+        return ("orElse", _rename_expr(e[1], ren), _rename_expr(e[2], ren))
+    if k == "ite":
+        return ("ite", _rename_cond(e[1], ren), _rename_expr(e[2], ren), _rename_expr(e[3], ren))
+    raise _NoBuild(k)
+
+
+def _rename_stmt(st, ren):
+    if st[0] == "assign":
+        return ("assign", ren.get(st[1], st[1]), _rename_expr(st[2], ren))
+    if st[0] == "assignIf":
+        return ("assignIf", _rename_cond(st[1], ren), ren.get(st[2], st[2]), _rename_expr(st[3], ren))
+    if st[0] == "setKeyIf":
+        return ("setKeyIf", _rename_cond(st[1], ren), ren.get(st[2], st[2]), _rename_key(st[3], ren), _rename_expr(st[4], ren))
+    raise _NoBuild(st[0])
 
 
 def _subst_expr(e, actual):
@@ -896,6 +952,11 @@ def _subst_expr(e, actual):
         return ("model", e[1], [(a, _subst_expr(v, actual)) for a, v in e[2]])
     if k == "orElse":
         return ("orElse", _subst_expr(e[1], actual), _subst_expr(e[2], actual))
+    if k == "ite":
+        a = actual[e[1][1]]
+        if a[0] != "param":
+            raise _NoBuild("condition on a computed argument")
+        return ("ite", (e[1][0], a[1]), _subst_expr(e[2], actual), _subst_expr(e[3], actual))
     raise _NoBuild(k)
 
 
@@ -904,11 +965,64 @@ def find_builders(src: Path, classes):
     tr = _BuilderTranslator(res)
     built, skipped = [], []
     for (modname, qual) in sorted(tr.funcs):
+        if not qual.split(".")[-1].startswith("create_"):
+            continue
         try:
             built.append(tr.translate(modname, qual))
         except _NoBuild as ex:
             skipped.append((modname, qual, str(ex)))
     return built, skipped
+
+
+def _module_const(mod: _Module, e):
+    """a string constant, directly or through a module-level name"""
+    if isinstance(e, ast.Constant) and isinstance(e.value, str):
+        return e.value
+    if isinstance(e, ast.Name) and e.id in mod.aliases:
+        v = mod.aliases[e.id]
+        if isinstance(v, ast.Constant) and isinstance(v.value, str):
+            return v.value
+    return None
+
+
+def _parse_table_loop(res, mod, fn, data, stmts):
+    """tag = data.get("<member>");  for t, model in TABLE: if tag == t: return model.model_validate(data);  raise
+    with TABLE a module-level tuple/list of (tag, Class) pairs"""
+    a, loop = stmts[0], stmts[1]
+    v = a.value
+    if not (isinstance(a.targets[0], ast.Name) and isinstance(v, ast.Call) and isinstance(v.func, ast.Attribute)
+            and v.func.attr == "get" and isinstance(v.func.value, ast.Name) and v.func.value.id == data
+            and len(v.args) == 1 and isinstance(v.args[0], ast.Constant)):
+        return None
+    tagvar, member = a.targets[0].id, v.args[0].value
+    if not (isinstance(loop.target, ast.Tuple) and len(loop.target.elts) == 2 and all(isinstance(x, ast.Name) for x in loop.target.elts)
+            and isinstance(loop.iter, ast.Name) and loop.iter.id in mod.aliases and not loop.orelse and len(loop.body) == 1):
+        return None
+    tn, mn = loop.target.elts[0].id, loop.target.elts[1].id
+    st = loop.body[0]
+    if not (isinstance(st, ast.If) and not st.orelse and len(st.body) == 1 and isinstance(st.test, ast.Compare)
+            and len(st.test.ops) == 1 and isinstance(st.test.ops[0], ast.Eq)):
+        return None
+    names = {getattr(st.test.left, "id", None), getattr(st.test.comparators[0], "id", None)}
+    r = st.body[0]
+    if names != {tagvar, tn} or not (
+            isinstance(r, ast.Return) and isinstance(r.value, ast.Call) and isinstance(r.value.func, ast.Attribute)
+            and r.value.func.attr == "model_validate" and isinstance(r.value.func.value, ast.Name) and r.value.func.value.id == mn
+            and len(r.value.args) == 1 and isinstance(r.value.args[0], ast.Name) and r.value.args[0].id == data):
+        return None
+    tbl = mod.aliases[loop.iter.id]
+    if not isinstance(tbl, (ast.Tuple, ast.List)):
+        return None
+    table = []
+    for row in tbl.elts:
+        if not (isinstance(row, ast.Tuple) and len(row.elts) == 2 and isinstance(row.elts[1], ast.Name)):
+            return None
+        tag = _module_const(mod, row.elts[0])
+        ids = res.name_to_ids(mod, row.elts[1].id)
+        if tag is None or not ids or len(ids) != 1:
+            return None
+        table.append((tag, next(iter(ids))))
+    return {"module": mod.modname, "qual": fn.name, "member": member, "table": table} if table else None
 
 
 def find_parse_tables(src: Path, classes):
@@ -925,6 +1039,11 @@ def find_parse_tables(src: Path, classes):
                 continue
             data = fn.args.args[0].arg
             stmts = [s for s in fn.body if not (isinstance(s, ast.Expr) and isinstance(s.value, ast.Constant))]
+            if len(stmts) == 3 and isinstance(stmts[0], ast.Assign) and isinstance(stmts[1], ast.For) and isinstance(stmts[2], ast.Raise):
+                t = _parse_table_loop(res, mod, fn, data, stmts)
+                if t is not None:
+                    out.append(t)
+                continue
             if len(stmts) != 2 or not isinstance(stmts[0], ast.Assign) or not isinstance(stmts[1], ast.If):
                 continue
             a = stmts[0]
